@@ -262,7 +262,19 @@ func sanitizeRef(r WRef, ck string) WRef {
 		name = "a"
 	}
 	if ck == "" {
-		return mkRef("lit", strings.TrimLeft(name, "/")+"x")
+		// without a context kind the schema stores a plain attribute name: a literal is kept as it
+		// is; a path reference is replaced by the literal name of its first component
+		if r.Ctor == "lit" {
+			return mkRef("lit", name)
+		}
+		name = strings.TrimLeft(name, "/")
+		if i := strings.IndexByte(name, '/'); i >= 0 {
+			name = name[:i]
+		}
+		if name == "" {
+			name = "a"
+		}
+		return mkRef("lit", name)
 	}
 	nr := mkRef("ref", name)
 	if nr.E != "" {
@@ -284,6 +296,9 @@ func clampInt(n int) int {
 
 func sanitizeClauses(cs []WClause) {
 	for i := range cs {
+		if cs[i].Op == "segmentMatch" && cs[i].Attr.Ctor != "" {
+			cs[i].Attr = sanitizeRef(cs[i].Attr, cs[i].CK) // an attribute on a segmentMatch clause: keep it, but expressible
+		}
 		if cs[i].Op != "segmentMatch" {
 			cs[i].Attr = sanitizeRef(cs[i].Attr, cs[i].CK)
 			if cs[i].Attr.Ctor == "" {
